@@ -120,7 +120,7 @@ func H_C15_update() {
 	c := newCore()
 	w, ctx := c.w, c.ctx
 	chain := name("msg.chain")
-	other := name("other.chain")
+	other := vp.String("other.chain", 2, 3, "ab") // possibly an extension of the client's name
 	signer := acct("signer")
 	regHere, regOther := vp.Bool("registered.here"), vp.Bool("registered.other")
 	someone := acct("someone")
